@@ -1,17 +1,33 @@
 import TracklibVerif.Lemmas.GraphTable
 import TracklibVerif.Lemmas.GraphPD
+import TracklibVerif.Lemmas.GraphSessionQ
+import TracklibVerif.Lemmas.GraphR4
 import Mathlib.Algebra.Order.Group.Int
 /-! # C06 — network shortest distances are the true minimum over permitted walks
 
-Property theorems only (helper lemmas: `Lemmas/Graph.lean`, `Lemmas/GraphStop.lean`, `Lemmas/GraphTable.lean`).
+Property theorems only (helper lemmas: `Lemmas/Graph.lean`, `Lemmas/GraphStop.lean`, `Lemmas/GraphTable.lean`,
+`Lemmas/GraphSession.lean`, `Lemmas/GraphSessionQ.lean`, `Lemmas/PDict.lean`, `Lemmas/Heapq.lean`, `Lemmas/GraphPD.lean`).
 The model (`Model/Graph.lean`) mirrors `Network.run_routing_forward` in Dijkstra mode and the API functions that
 read its result. Weights live in any linearly ordered additive commutative monoid (`ℕ ℤ ℚ ℝ`, …) and are
 non-negative (`WFNet`); there is no bound on the size of the network. `Walk net s v c` is a walk of arcs, each
 traversed in a direction its orientation permits (`≥ 0`: source→target, `≤ 0`: target→source), of total
-weight `c`; `IsDist net s v y` says `y` is the minimum of those weights; the sentinel `-1` is `none`. -/
+weight `c`; `IsDist net s v y` says `y` is the minimum of those weights; the sentinel `-1` is `none`.
+
+**Weights, and float weights.** The theorems are stated for any `W` with a linear order, a `0` and a `+` such that
+`0 ≤ w → a ≤ a + w` and `a ≤ b → a + w ≤ b + w` (class `WalkAdd`, `Lemmas/Graph.lean`). Nothing else is used — no
+associativity, commutativity, cancellation, not even `a + 0 = a` — because the code and `Walk` both add the weights of a
+walk from the source outwards (`((0 + w₁) + w₂) + …`). Every linearly ordered additive commutative (in particular every
+cancellative) monoid is an instance (`instWalkAddOfMonoid`: `ℕ ℤ ℚ ℝ` …). IEEE-754 round-to-nearest addition on the
+non-NaN doubles also has the two properties (rounding is monotone), so for float weights the code computes the minimum
+over walks of the *left-to-right rounded* sum — that is what the theorems say at such an instance. What IEEE addition
+lacks is associativity (and cancellation): that minimum need not be the rounding of the exact minimum, need not be
+attained by the exactly-shortest walk, and `dist s t` need not equal `dist t s` in a symmetric network; `R4` at the
+end of this file is a small non-associative instance on which the theorems apply. Lean's `Float` is opaque, so the
+instance for doubles is not constructed; the float stream of the harness compares with exact rational distances at
+1e-9 relative. NaN and negative weights are outside the property. -/
 namespace TV.C06
 open TV.Graph
-variable {W : Type} [AddCommMonoid W] [LinearOrder W] [IsOrderedAddMonoid W]
+variable {W : Type} [LinearOrder W] [Add W] [Zero W] [WalkAdd W]
 
 /-- T2 (`forward_invariant`): the loop invariants of appendix A.2 (source labelled 0; settled nodes' arcs relaxed;
 every label is the weight of a walk; settled labels ≤ unsettled labels; settled nodes labelled; labels are of
@@ -135,13 +151,145 @@ theorem prepared_twice_correct (net : Net W) (hnet : WFNet net) (order : List Na
       unfold allShortestDistances at h1 ⊢
       rw [h1, h2]
 
-/-! ### the queue: `priority_dict` with lazy deletion (`Model/PDict.lean`) -/
+/-- T4 with a cut-off, the other direction: whatever `shortest_distance(s, t, cut)` returns is the weight of a permitted
+walk (so never below the true distance), and it returns the sentinel only when no walk within the cut-off exists. -/
+theorem shortest_distance_cut_sound (net : Net W) (hnet : WFNet net) (s t : Nat) (hs : s < net.n) (cut : Option W) :
+    (∀ y, shortestDistance net s t cut = some y → Walk net s t y) ∧
+    (shortestDistance net s t cut = none → ∀ y, IsDist net s t y → ¬ Within cut y) := by
+  constructor
+  · intro y h
+    exact (forward_inv net hnet s (some t) cut net.n (St.init s) [] (inv_init net s hs)).j3 t y h
+  · intro h y hy hw
+    rw [(shortest_distance_cut net hnet s t hs cut).1 y hy hw] at h
+    cases h
 
-/-- [stretch] `priority_dict.pop_smallest`: when every current entry of the dict has its `(priority, key)` tuple in the
-heap (`HInv`; established by the constructor, kept by `__setitem__` — `priority_dict_setitem` — and by `pop_smallest`),
-a pop on a non-empty dict returns the key whose `(priority, key)` tuple is the smallest among the *current* entries,
-however many stale tuples the heap still holds, removes exactly that key, and keeps `HInv`. (`heappop` is taken to
-remove a smallest tuple of the heap list; `heapq`'s sift operations are not modelled.) -/
+/-- orientation semantics, model = statement: the edges `addEdge` lists in `NEXT_EDGES[u]`, read with the loop's
+"other end" rule (`fils = e.target; if fils == pere: fils = e.source`), are exactly the permitted arcs out of `u`:
+an edge of orientation `≥ 0` from its source to its target, an edge of orientation `≤ 0` from its target to its
+source (two-way edges both ways, self-loops included). -/
+theorem next_edges_exactly_permitted_arcs (net : Net W) (u v : Nat) (w : W) :
+    (∃ e ∈ net.edges, e.w = w ∧ ((0 ≤ e.ori ∧ e.src = u ∧ e.tgt = v) ∨ (e.ori ≤ 0 ∧ e.tgt = u ∧ e.src = v))) ↔
+      ∃ e ∈ nextEdges net u, other e u = v ∧ e.w = w :=
+  arc_iff_next net u v w
+
+/-- every entry `run_routing_forward` writes to `output_dict`, with any target and any cut-off (so also through
+`shortest_distance(s, t, cut, output_dict)`), is the true distance of its key and does not exceed the cut-off; the
+entries are exactly the nodes the search marked `visite`. -/
+theorem output_dict_entries_sound (net : Net W) (hnet : WFNet net) (s : Nat) (hs : s < net.n) (tgt : Option Nat)
+    (cut : Option W) :
+    (∀ u y, (u, y) ∈ (runForward net s tgt cut).2 → IsDist net s u y ∧ Within cut y) ∧
+    (∀ u, (runForward net s tgt cut).1.vis u = true ↔ ∃ y, (u, y) ∈ (runForward net s tgt cut).2) :=
+  runForward_entries net hnet s hs tgt cut
+
+/-- `all_shortest_distances(cut, output_dict)` / `prepare(cut)` on a dictionary that already holds entries (from
+earlier calls with other cut-offs, `load_prep`, …): afterwards the key `(s, v)` holds `y` iff either `s` is a node and
+`y` is the true distance `s → v` and within the cut-off (written or overwritten), or the key is not within the cut-off
+and held `y` before. Generalises `prepared_twice_correct` to any number of calls. -/
+theorem dictionary_accumulates (net : Net W) (hnet : WFNet net) (order : List Nat) (horder : ∀ s ∈ order, s < net.n)
+    (cut : Option W) (tb : Table W) (s v : Nat) (y : W) :
+    allShortestDistances net order cut tb (s, v) = some y ↔
+      ((s ∈ order ∧ IsDist net s v y ∧ Within cut y) ∨
+       (tb (s, v) = some y ∧ ¬ (s ∈ order ∧ ∃ y', IsDist net s v y' ∧ Within cut y'))) :=
+  allShortestDistances_acc net hnet order horder cut tb s v y
+
+/-- `sub_network(s, cut, "TOPOLOGIC")` returns exactly the edges whose two end nodes are within the cut-off of `s`
+(it keeps the edges with both ends `visite` after `run_routing_forward(s, cut=cut)`). -/
+theorem sub_network_edges (net : Net W) (hnet : WFNet net) (s : Nat) (hs : s < net.n) (cut : Option W) (e : Edge W) :
+    e ∈ subEdges net (runForward net s none cut).1 ↔
+      (e ∈ net.edges ∧ (∃ y, IsDist net s e.src y ∧ Within cut y) ∧ (∃ y, IsDist net s e.tgt y ∧ Within cut y)) :=
+  subEdges_spec net hnet s hs cut e
+
+/-! ### one `Network` object used for a sequence of calls (`Model/GraphSession.lean`) -/
+
+/-- the reset of the routing flags: whatever `poids` / `visite` / `antecedent` the earlier calls (searches on this
+network, or on another network sharing the `Node` objects, as `sub_network` produces) left on the nodes of `NODES`,
+`__resetFlags` followed by `source.poids = 0` yields the initial labelling of a fresh search. -/
+theorem search_starts_clean (order : List Nat) (st : St W) (s : Nat) (h : CleanOutside order st) :
+    startFlags order st s = St.init s :=
+  start_clean order st s h
+
+/-- invariant over operation sequences: after any sequence of calls (`addNode`, `addEdge`, searches of every form,
+`all_shortest_distances`, `prepare`, `sub_network`, in any interleaving) on a new `Network`, the object satisfies the
+session invariant (non-negative weights, edges between nodes of `NODES`, no flags outside `NODES`). -/
+theorem session_invariant (n : Nat) (ops : List (Op W)) : SessOK (stateAfter (Sess.new n : Sess W) ops) :=
+  stateAfter_ok _ (new_ok n) ops
+
+/-- … hence every search of a session starts from the clean labelling and answers as a search on a fresh object:
+each call returns the pure function of `Model/Graph.lean` applied to the graph *as it is at that moment*, so the
+theorems above apply to it. -/
+theorem session_answers_pure (n : Nat) (ops : List (Op W)) (s t : Nat) (cut : Option W) (ud : Bool) :
+    let σ := stateAfter (Sess.new n : Sess W) ops
+    s ∈ σ.order → t ∈ σ.order →
+      (exec σ (.dist s t cut ud)).2 = .val (shortestDistance σ.net s t cut) ∧
+      (exec σ (.distList s cut ud)).2 = .vals (shortestDistanceList σ.net σ.order s cut) ∧
+      (exec σ (.route s (some t) cut ud)).2 =
+        .flags (σ.order.map (runForward σ.net s (some t) cut).1.d) (σ.order.map (runForward σ.net s (some t) cut).1.vis) ∧
+      (exec σ (.all cut false)).2 = .table (allShortestDistances σ.net σ.order cut Table.empty) ∧
+      (exec σ (.prepare cut)).1.prep = some (prepare σ.net σ.order cut σ.prep) := by
+  intro σ hs ht
+  have h := session_invariant n ops
+  exact ⟨(exec_dist_eq σ h s t hs ht cut ud).1, (exec_distList_eq σ h s hs cut ud).1,
+    (exec_route_eq σ h s hs (some t) (fun _ e => by cases e; exact ht) cut ud).1,
+    (exec_all_eq σ h cut false).1, (exec_prepare_eq σ h cut).1⟩
+
+/-- the property for sessions: in any state reached by any sequence of calls, `shortest_distance(s, t)` is the
+minimum weight over the permitted walks of the current graph, the sentinel iff there is none; with a cut-off it is
+the true distance whenever that is within the cut-off. -/
+theorem session_distance_correct (n : Nat) (ops : List (Op W)) (s t : Nat) (cut : Option W) (ud : Bool) :
+    let σ := stateAfter (Sess.new n : Sess W) ops
+    s ∈ σ.order → t ∈ σ.order →
+      ∃ d, (exec σ (.dist s t cut ud)).2 = .val d ∧
+        (∀ y, IsDist σ.net s t y → Within cut y → d = some y) ∧ (¬ Reachable σ.net s t → d = none) ∧
+        (cut = none → ∀ y, d = some y ↔ IsDist σ.net s t y) ∧ (cut = none → (d = none ↔ ¬ Reachable σ.net s t)) := by
+  intro σ hs ht
+  have h := session_invariant n ops
+  refine ⟨_, (exec_dist_eq σ h s t hs ht cut ud).1, ?_, ?_, ?_, ?_⟩
+  · exact (shortest_distance_cut σ.net h.wf s t (h.nodes s hs) cut).1
+  · exact (shortest_distance_cut σ.net h.wf s t (h.nodes s hs) cut).2
+  · intro hc; subst hc; exact (shortest_distance_correct σ.net h.wf s t (h.nodes s hs)).1
+  · intro hc; subst hc; exact (shortest_distance_correct σ.net h.wf s t (h.nodes s hs)).2
+
+/-- the dictionaries of a session (`DISTANCES` and a caller's `output_dict`) hold only true distances of the current
+graph, through any call that does not add an edge (adding an edge changes the distances; entries written before it
+are the caller's business). -/
+theorem session_tables_sound (σ : Sess W) (h : SessOK σ) (op : Op W) (hnet : (exec σ op).1.net = σ.net)
+    (hu : TableSound σ.net σ.udict) (hp : ∀ tb, σ.prep = some tb → TableSound σ.net tb) :
+    TableSound σ.net (exec σ op).1.udict ∧ ∀ tb, (exec σ op).1.prep = some tb → TableSound σ.net tb :=
+  exec_tables_sound σ h op hnet hu hp
+
+/-! ### the queue: `heapq` (`Model/Heapq.lean`) and `priority_dict` with lazy deletion (`Model/PDict.lean`) -/
+
+/-- Python's order on `(priority, key)` tuples is a strict weak order — all `heapq` needs. -/
+theorem tuple_order_ok : Heapq.Ord (PDict.tlt (W := W)) := PDict.tlt_ord
+
+/-- `heapq.heappush` (append + `_siftdown`) keeps the heap invariant `heap[(j-1)//2] <= heap[j]` and adds exactly the
+pushed item (the new list is a permutation of `item :: heap`). Any strict weak order. -/
+theorem heapq_heappush {α : Type} {lt : α → α → Bool} (o : Heapq.Ord lt) (heap : List α) (item : α)
+    (hh : Heapq.IsHeap lt heap) :
+    Heapq.IsHeap lt (Heapq.heappush lt heap item) ∧ (Heapq.heappush lt heap item).Perm (item :: heap) :=
+  Heapq.heappush_spec o heap item hh
+
+/-- `heapq.heappop` (pop the last item, put it at the root, `_siftup`: bubble the smaller child up to a leaf, then
+`_siftdown`) fails exactly on the empty list; on a heap it returns the root, which is a minimum of the multiset
+(`not x < m` for every item `x`), leaves exactly the other items, and keeps the heap invariant. -/
+theorem heapq_heappop_min {α : Type} {lt : α → α → Bool} (o : Heapq.Ord lt) (heap : List α)
+    (hh : Heapq.IsHeap lt heap) :
+    (Heapq.heappop lt heap = none ↔ heap = []) ∧
+    ∀ m rest, Heapq.heappop lt heap = some (m, rest) →
+      heap.Perm (m :: rest) ∧ Heapq.IsHeap lt rest ∧ (∀ x ∈ heap, lt x m = false) ∧ heap[0]? = some m :=
+  ⟨Heapq.heappop_none lt heap, fun m rest h => Heapq.heappop_spec o heap hh m rest h⟩
+
+/-- `heapq.heapify` (`_siftup(x, i)` for `i = n//2-1 … 0`) turns any list into a heap with the same items. -/
+theorem heapq_heapify {α : Type} {lt : α → α → Bool} (o : Heapq.Ord lt) (x : List α) :
+    Heapq.IsHeap lt (Heapq.heapify lt x) ∧ (Heapq.heapify lt x).Perm x :=
+  Heapq.heapify_spec o x
+
+/-- `priority_dict.pop_smallest`: when every current entry of the dict has its `(priority, key)` tuple in `_heap` and
+`_heap` is a binary heap in tuple order (`HInv`; established by the constructor through `heapify`, kept by
+`__setitem__` — `priority_dict_setitem` — and by `pop_smallest`), a pop on a non-empty dict returns the key whose
+`(priority, key)` tuple is the smallest among the *current* entries, however many stale tuples the heap still holds,
+removes exactly that key, and keeps `HInv`. `heappop` here is the modelled `heapq.heappop` (sift operations on the
+list), whose minimum property is `heapq_heappop_min`. -/
 theorem pop_smallest_min (pd : PDict.PD W) (hinv : PDict.HInv pd) (k0 : Nat) (v0 : W)
     (h0 : PDict.lookup pd.dict k0 = some v0) :
     ∃ k v pd', PDict.popSmallest pd = some (k, pd') ∧ PDict.lookup pd.dict k = some v ∧
@@ -149,8 +297,8 @@ theorem pop_smallest_min (pd : PDict.PD W) (hinv : PDict.HInv pd) (k0 : Nat) (v0
       (∀ k', PDict.lookup pd'.dict k' = if k' = k then none else PDict.lookup pd.dict k') ∧ PDict.HInv pd' :=
   PDict.popSmallest_spec pd hinv k0 v0 h0
 
-/-- `pd[k] = v` (heap push, or rebuild once the heap has reached twice the size of the dict) sets that entry only and
-keeps the heap invariant; `priority_dict(d)` establishes it. -/
+/-- `pd[k] = v` (`heappush`, or `_rebuild_heap` = list + `heapify` once the heap has reached twice the size of the dict)
+sets that entry only and keeps the invariant (entries present, `_heap` a binary heap); `priority_dict(d)` establishes it. -/
 theorem priority_dict_setitem (pd : PDict.PD W) (hinv : PDict.HInv pd) (k : Nat) (v : W) :
     (∀ k', PDict.lookup (PDict.setitem pd k v).dict k' = if k' = k then some v else PDict.lookup pd.dict k') ∧
       PDict.HInv (PDict.setitem pd k v) ∧ ∀ d : List (Nat × W), PDict.HInv (PDict.ofDict d) :=
@@ -182,5 +330,41 @@ example : (runForward demo 0 none (some 0)).2 = [(0, 0), (1, 0)] := by decide +k
 example : (runForwardPD demo 0 none (some 0)).2 = [(0, 0), (1, 0)] := by decide +kernel
 /-- a stale heap entry (key 1 was lowered from 5 to 0) is skipped; ties on the priority go to the smaller key -/
 example : (PDict.popSmallest (PDict.setitem (PDict.ofDict [(1, (5 : Int)), (2, 0)]) 1 0)).map (·.1) = some 1 := by decide +kernel
+/-- `heapq` on integers: heapify, push, pop — the list layouts are those of CPython -/
+example : Heapq.heapify (fun a b : Nat => decide (a < b)) [5, 3, 8, 1, 9, 2] = [1, 3, 2, 5, 9, 8] := by decide +kernel
+example : Heapq.heappush (fun a b : Nat => decide (a < b)) [1, 3, 2, 5, 9, 8] 0 = [0, 3, 1, 5, 9, 8, 2] := by decide +kernel
+example : Heapq.heappop (fun a b : Nat => decide (a < b)) [0, 3, 1, 5, 9, 8, 2] = some (0, [1, 3, 2, 5, 9, 8]) := by decide +kernel
+example : Heapq.Ord (fun a b : Nat => decide (a < b)) :=
+  ⟨fun a b h => by simp only [decide_eq_true_eq, decide_eq_false_iff_not] at h ⊢; omega,
+   fun a b c h1 h2 => by simp only [decide_eq_false_iff_not] at h1 h2 ⊢; omega⟩
+/-- a session: build 0–1 (two-way, weight 2), search, add a shortcut through a new node, search again; then a
+sub-network and a prepared table — the second search does not see the labels of the first -/
+def demoOps : List (Op Int) :=
+  [.addEdge ⟨0, 0, 1, 2, 0⟩, .dist 0 1 none false, .addEdge ⟨1, 0, 2, 0, 1⟩, .addEdge ⟨2, 1, 2, 1, -1⟩,
+   .dist 0 1 none true, .prepare (some 0), .prepared 0 2, .prepared 0 1, .sub 0 (some 0)]
+example : (runOps (Sess.new 3) demoOps).map (fun o => match o with | .val d => d | _ => none)
+    = [none, some 2, none, none, some 1, none, some 0, none, none] := by decide +kernel
+example : (runOps (Sess.new 3) demoOps).map (fun o => match o with | .subnet ns es => (ns, es) | _ => ([], []))
+    = [([], []), ([], []), ([], []), ([], []), ([], []), ([], []), ([], []), ([], []), ([0, 2], [1])] := by decide +kernel
+
+
+/-! ### a non-associative weight structure (`R4`, `Lemmas/GraphR4.lean`: a caricature of floating point) on which all of the above holds -/
+
+/-- the addition is not associative … -/
+example : (R4.of 1 + R4.of 2) + R4.of 4 ≠ R4.of 1 + (R4.of 2 + R4.of 4) := by decide
+/-- … and the theorems apply: on the path 0 –1– 1 –2– 2 –4– 3 the reported distance is the left-to-right rounded sum 8,
+which is the minimum over walks of that sum (`shortest_distance_correct`), not the rounding of 1 + (2 + 4) -/
+def demoR : Net R4 :=
+  { n := 4, edges := [⟨0, 0, 1, R4.of 1, 0⟩, ⟨1, 1, 2, R4.of 2, 0⟩, ⟨2, 2, 3, R4.of 4, 0⟩] }
+example : WFNet demoR := by
+  intro e he
+  simp only [demoR, List.mem_cons, List.not_mem_nil, or_false] at he
+  rcases he with rfl | rfl | rfl <;> exact ⟨by decide, by decide, Nat.zero_le _⟩
+example : shortestDistance demoR 0 3 none = some (R4.of 8) := by decide +kernel
+example : IsDist demoR 0 3 (R4.of 8) :=
+  ((shortest_distance_correct demoR (by
+    intro e he
+    simp only [demoR, List.mem_cons, List.not_mem_nil, or_false] at he
+    rcases he with rfl | rfl | rfl <;> exact ⟨by decide, by decide, Nat.zero_le _⟩) 0 3 (by decide)).1 _).1 (by decide +kernel)
 
 end TV.C06
